@@ -11,7 +11,7 @@ from ..impl import BIG_TREES, build, mkrule, plan_graph_shards, rule_specs, shar
 from ..refmodel import spec_to_json, truncate
 from ..scan import observed, scan
 from ..scanmodel import source
-from ..spaces import anc, depth_of, trees
+from ..spaces import anc, depth_of, renamed_graph, trees
 
 ID = "C09"
 RULE = (
@@ -42,6 +42,8 @@ def plan(tier, seed):
         shards = plan_graph_shards("A", n_max=5, chunk=32)
         shards += plan_graph_shards("B", n_max=6, n_min=6, k=2, parts=8)
         shards += plan_graph_shards("B", k=2, parts=8, with_ext=True, tree_list=list(BIG_TREES))
+    adv = plan_graph_shards("A", n_max=4 if tier == "quick" else 5, chunk=64)
+    shards += [dict(s, naming="adversarial", bound=s["bound"] + " naming=adversarial") for s in adv]
     for s in shards:
         s["part"] = "graph"
         s["rules"] = True
@@ -50,7 +52,7 @@ def plan(tier, seed):
     step = 24
     for lo in range(0, n, step):
         shards.append({"part": "skeleton", "lo": lo, "hi": lo + step, "bound": "single-statement skeleton scans with level_limit"})
-    return {"shards": shards, "require_nonzero": ["quotient", "merging", "verdict:PASS", "verdict:FAIL", "scan", "skeleton", "skeleton:edge-survives"]}
+    return {"shards": shards, "require_nonzero": ["quotient", "merging", "verdict:PASS", "verdict:FAIL", "scan", "skeleton", "skeleton:edge-survives", "skeleton:parent-relative-spelling"]}
 
 
 def _count(t):
@@ -282,11 +284,19 @@ def skeleton_cases(res, lo=0, hi=None, only=None):
                         continue
                     mp = os.path.join(base, mp_rel)
                     offset = mp_rel.count("/")
-                    for opts in ({}, {"exclude_external_libraries": False}):
+                    spellings = [stmt]
+                    if mp_rel != "top" and not fid.startswith("rel") and (target + ".").startswith(mp_mod + "."):
+                        # src-layout spelling: absolute import written relative to module_path's parent
+                        spellings.append(stmt.replace("top." + mp_mod.split(".", 1)[1], mp_mod.split(".", 1)[1], 1))
+                    for spelled, opts in [(sp, o) for sp in spellings for o in ({}, {"exclude_external_libraries": False})]:
+                        if spelled != stmt and opts:
+                            continue
+                        with open(path, "w") as f:
+                            f.write(spelled + "\n")
                         full = observed(scan(root, mp, **opts))
                         maxdepth = max(m.count(".") for m in full[0]) - offset
                         for k in range(1, max(1, maxdepth) + 1):
-                            key = [rel, stmt, mp_rel, k, sorted(opts)]
+                            key = [rel, spelled, mp_rel, k, sorted(opts)]
                             if only is not None and only != key:
                                 continue
                             lim = observed(scan(root, mp, level_limit=k, **opts))
@@ -301,6 +311,8 @@ def skeleton_cases(res, lo=0, hi=None, only=None):
                                 res.transitions += 2
                                 res.traces += 1
                                 res.stats["skeleton"] += 1
+                                if spelled != stmt:
+                                    res.stats["skeleton:parent-relative-spelling"] += 1
                                 if exp_imps:
                                     res.stats["skeleton:edge-survives"] += 1
                                     res.nontrivial += 1
@@ -330,6 +342,7 @@ def run_shard(shard, tier, seed):
         res.sample({"layout": "deep", "module_path": "top/p", "level_limit": 1})
         return res
     for ns, I in shard_graphs(shard, seed):
+        ns, I = renamed_graph(ns, I, shard.get("naming", "identity"))
         res.states += 1
         for kind, k, spec, exp, got in check_graph(ns, I, seed, res, shard.get("rules", True)):
             res.violation(kind, {"part": "graph", "modules": ns, "imports": I, "level_limit": k, "rule": spec, "seed": seed}, exp, got)
